@@ -84,9 +84,12 @@ PROPS = {
                        "C03_synced_survive (after any crash the recovered prefix contains every transaction whose record was flushed). "
                        "Tied to the code by drop/reopen and crash images at arbitrary pipeline positions of generated histories."),
         "level_note": ("Trusted: Lean kernel; P1 abstraction (see C02); the real drop may leave flushed log files to be replayed by the next "
-                       "open, which the model folds into one step; worker-thread shutdown is C15."),
+                       "open, which the model folds into one step; drops WITH background threads (deep queues, many pending log files, "
+                       "shutdown at a random moment) are exercised by the c15 scenarios, whose oracle checks that every Ok-committed key is "
+                       "present after reopen; worker-thread shutdown itself is C15."),
         "lean": ["Pdb.Props.C03", "Pdb.Proofs.Order"],
-        "harness": [{"cmd": "p1", "quick": 250, "thorough": 15000}],
+        "harness": [{"cmd": "p1", "quick": 250, "thorough": 15000},
+                    {"cmd": "c15", "quick": 24, "thorough": 300, "model": False, "timeout": 3000}],
         "rule": P1_RULE,
         "assumptions": [A_HASH, A_COMPRESS, P2_GAP],
     },
